@@ -55,7 +55,10 @@ def frames(lvals, rvals, pres, pad=0):
                       's': pd.Series(lv, dtype=object), 'p': list(range(100, 100 + n))})
     R = pd.DataFrame({'q': pd.Series(['w%d' % i for i in range(m)], dtype=object),
                       'rk': [10 + i for i in range(m)], 's': pd.Series(rv, dtype=object)})
-    if pres.index != 'range':
+    if pres.index == 'dup':
+        L.index = [i % 2 for i in range(n)]       # repeated row labels (as after pd.concat)
+        R.index = [5] * m
+    elif pres.index != 'range':
         L.index = ['i%d' % i for i in range(n)]
         R.index = list(range(m - 1, -1, -1))
     return L, R
